@@ -15,6 +15,7 @@ THEOREMS = [
     "Mtv.Session.bare_name_before_repair",
     "Mtv.Session.resume_skips_exchange",
     "Mtv.Session.fresh_or_torn_start",
+    "Mtv.Session.start_on_any_storage",
 ]
 RULE = ("operations on real files in a per-run scratch directory through session.NewFromFile(...).Store/Load and "
         "mtproto.NewMTProto: round trips on six path shapes, store/load histories with forced (equal) modification "
